@@ -83,6 +83,72 @@ def _tables(rep, config):
                  sample='gf_table_gfni[%d]=%#018x' % (c, exp) if c in (2, 0x1d) else None)
 
 
+def _gfmul_eval(rep, config):
+    """The tables being right does not make gf_mul / gf_inv right: the functions index them, special-case zero, and may take short cuts.  Both are pure functions of two
+    (one) bytes, so the compiled IR is interpreted for EVERY operand pair, with the table reads answered from the tables of the same build."""
+    import llir, constinterp, cbuild
+    mod = llir.library(config)
+    eb = Elf(cbuild.objs(config, ['erasure_code/ec_base.c'])['erasure_code/ec_base.c'])
+    R = rep.rule('T-GFMUL-EVAL[%s]' % config, 'gf_mul(a, b) and gf_inv(a) as compiled in this configuration, interpreted (constant interpretation of the IR, loads from the constant tables answered from the object '
+                 'file) for all 65536 / 256 operand values: gf_mul equals the carry-less product reduced by 0x11D, gf_inv(0) = 0 and a * gf_inv(a) = 1', floor=2, unit='functions')
+    tabs = {}
+    for name in ('gff_base', 'gflog_base', 'gf_mul_table_base', 'gf_inv_table_base'):
+        b = eb.symbytes(name)
+        if b is not None:
+            tabs['@' + name] = b
+    for fn, nargs in (('gf_mul', 2), ('gf_inv', 1)):
+        f = mod.funcs.get(fn)
+        if f is None:
+            raise AnalysisBroken('%s not found [%s]' % (fn, config))
+        R.instance()
+        names = [n for _, n in f.params]
+        res = {}
+        cur = {}
+
+        class IP(constinterp.Interp):
+            def exec(self, i, env):
+                if i.op == 'getelementptr' and i.ops and i.ops[0] in tabs:
+                    idx = [x.split()[-1] for x in i.extra.get('idx', [])]
+                    v = self.val(idx[-1], env)
+                    env[i.dst] = ('tab', i.ops[0], v)
+                    return
+                if i.op == 'load' and isinstance(env.get(i.ops[0]), tuple):
+                    _, t, k = env[i.ops[0]]
+                    if k == constinterp.TOP or not (0 <= k < len(tabs[t])):
+                        res['oob'] = (t, k)
+                        env[i.dst] = constinterp.TOP
+                    else:
+                        env[i.dst] = tabs[t][k]
+                    return
+                return super().exec(i, env)
+
+        def obs(i, env, ip):
+            if i.op == 'ret':
+                res['r'] = ip.val(i.ops[-1].split()[-1], env)
+        bad = None
+        rng = [(a, b) for a in range(256) for b in range(256)] if nargs == 2 else [(a,) for a in range(256)]
+        for args in rng:
+            res.clear()
+            IP(mod, f, obs, params=dict(zip(names, args))).run()
+            r = res.get('r')
+            if 'oob' in res or r in (None, constinterp.TOP):
+                bad = (args, 'not evaluable' if 'oob' not in res else 'table index %s out of range' % (res['oob'],))
+                break
+            r &= 0xff
+            if nargs == 2:
+                want = gf2.gfmul(args[0], args[1])
+                if r != want:
+                    bad = (args, 'returns %#04x, the field product is %#04x' % (r, want))
+                    break
+            else:
+                a = args[0]
+                if (a == 0 and r != 0) or (a != 0 and gf2.gfmul(a, r) != 1):
+                    bad = (args, 'returns %#04x: a * inv(a) = %#04x' % (r, gf2.gfmul(a, r)))
+                    break
+        R.check(bad is None, mod.where(f, None), '%s%s %s in the %s build: scalar field arithmetic (matrix generation, inversion, table expansion) is wrong for this operand although every table cell is right'
+                % ((fn, bad[0], bad[1], config) if bad else (fn, '', '', config)), key='T-GFMUL-EVAL|%s|%s' % (config, fn), sample='%s [%s]: all %d operand values' % (fn, config, len(rng)))
+
+
 def _gfinit(rep, branch):
     """gf_vect_mul_init: 32 linear maps c -> tbl[j] against the field"""
     R = rep.rule('L-GFINIT[%s]' % branch, 'gf_vect_mul_init writes tbl[j]=c*j (j<16), tbl[16+j]=c*16j for all c (GF(2)-linear abstract interpretation)', floor=1, unit='functions')
@@ -199,7 +265,7 @@ def main(tier):
     rep.undecided = UNDECIDED
     rep.explanation = ('Exhaustive exact comparison of every GF(2^8) constant table of the current tree (default and GF_LARGE_TABLES builds) with '
                        'carry-less multiplication mod 0x11D computed by the checker, and an abstract interpretation of gf_vect_mul_init in a '
-                       'GF(2)-linear domain that decides the table expansion for all 256 coefficients at once, in both preprocessor branches. '
+                       'GF(2)-linear domain that decides the table expansion for all 256 coefficients at once, in both preprocessor branches; gf_mul / gf_inv as compiled in both builds are interpreted at IR level for every operand value. '
                        'Nothing of the library is executed.')
     rep.trusted = ['clang 14 front end (constant initialisers, -O1 IR of gf_vect_mul_init)', 'checker reference gf2.py (clmul mod 0x11D)',
                    'Intel SDM definition of GF2P8AFFINEQB bit order']
@@ -207,6 +273,8 @@ def main(tier):
                         configurations=['default', 'gflarge'], functions=['gf_vect_mul_init (64-bit branch)', 'gf_vect_mul_init (bytewise branch)', 'gf_mul', 'gf_inv'])
     rep.attempt(_tables, rep, 'default')
     rep.attempt(_tables, rep, 'gflarge')
+    rep.attempt(_gfmul_eval, rep, 'default')
+    rep.attempt(_gfmul_eval, rep, 'gflarge')
     rep.attempt(_table_writers, rep)
     rep.attempt(_gfinit, rep, 'word64')
     rep.attempt(_gfinit, rep, 'bytewise')
